@@ -5316,6 +5316,14 @@ class Parameterized(metaclass=ParameterizedMetaclass):
 
         for name,value in state.items():
             setattr(self,name,value)
+        # The restored object starts outside any batch or trigger scope that
+        # was open on the original when its state was captured.
+        self._param__private.parameters_state = {
+            "BATCH_WATCH": False,
+            "TRIGGER": False,
+            "events": [],
+            "watchers": []
+        }
         self._param__private.initialized = True
 
     @_recursive_repr()
